@@ -194,10 +194,11 @@ NONE_ONLY = '()'
 
 
 def run_cli(job):
-    """job = (amr, [file texts] or None, stdin text or None) -> (returncode, stdout, stderr)"""
-    amr, files, stdin = job
+    """job = (amr, [file texts] or None, stdin text or None[, other options]) -> (returncode, stdout, stderr)"""
+    amr, files, stdin = job[:3]
+    extra = list(job[3]) if len(job) > 3 else []
     env = dict(os.environ, PYTHONPATH=str(common.REPO), PYTHONHASHSEED='0', PYTHONIOENCODING='utf-8')
-    cmd = ['/venv/bin/python', '-m', 'penman', '--check'] + (['--amr'] if amr else [])
+    cmd = ['/venv/bin/python', '-m', 'penman', '--check'] + (['--amr'] if amr else []) + extra
     with tempfile.TemporaryDirectory(prefix='c16-') as d:
         paths = []
         for i, text in enumerate(files or []):
@@ -242,6 +243,12 @@ def cli_jobs(chk):
         jobs.append((amr, [many(256), many(512)], None, ('many', 256, 512)))
         jobs.append((amr, None, many(256), ('many-stdin', 256)))
         jobs.append((amr, [many(256), text_of(('G',))], None, ('many', 256, 'G')))
+        # --check next to the layout / formatting options: the report (status and error-N metadata) is the same
+        for extra in (('--reconfigure', 'canonical'), ('--reconfigure', 'original'), ('--rearrange', 'canonical,attributes-first'),
+                      ('--indent', '0', '--compact'), ('--reconfigure', 'canonical', '--rearrange', 'alphanumeric')):
+            for c in chk.rng.sample(contents[1:], 4):
+                jobs.append((amr, [text_of(c), text_of(chk.rng.choice(contents))], None, ('extra', extra, c), extra))
+                jobs.append((amr, None, text_of(c), ('extra-stdin', extra, c), extra))
     return jobs
 
 
@@ -388,14 +395,18 @@ def run(chk):
     # ---------------- command-line tool ----------------------------------------------------
     jobs = cli_jobs(chk)
     with ThreadPoolExecutor(max_workers=common.NPROC) as ex:
-        outs = list(ex.map(run_cli, [(j[0], j[1], j[2]) for j in jobs]))
+        outs = list(ex.map(run_cli, [(j[0], j[1], j[2]) + ((j[4],) if len(j) > 4 else ()) for j in jobs]))
     chk.notes.append(f'phase CLI subprocesses: {time.time() - t0:.1f}s')
     cli_requests, cli_expect = [], []
-    for (amr, files, stdin, shape), (rc, out, err) in zip(jobs, outs):
+    for job, (rc, out, err) in zip(jobs, outs):
+        amr, files, stdin, shape = job[:4]
         name, tbl, m, wm = model_of(1 if amr else 0)
         codec = PENMANCodec(model=m)
         case = {'kind': 'cli', 'amr': amr, 'files': files, 'stdin': stdin}
-        chk.count(('cli', amr, repr(files), stdin))
+        if len(job) > 4:
+            case['options'] = list(job[4])
+            chk.stat('cli-with-layout-options')
+        chk.count(('cli', amr, repr(files), stdin, repr(case.get('options'))))
         chk.stat('cli-runs')
         chk.stat(f'cli-{"stdin" if files is None else str(len(files)) + "-files"}')
         if rc is None:
@@ -454,7 +465,7 @@ def replay(obj):
     case = obj.get('case') or {}
     print('replay case:', case)
     if case.get('kind') == 'cli':
-        rc, out, err = run_cli((case['amr'], case['files'], case['stdin']))
+        rc, out, err = run_cli((case['amr'], case['files'], case['stdin'], case.get('options') or []))
         print('exit status:', rc)
         print(out)
         print(err[-2000:])
